@@ -337,11 +337,9 @@ theorem writeUncompressedName_spec (n : WName) (s : State) (h : WInv s) (hn : n.
   have hav := h.cur_av; have hsz := h.av_size; have hc12 := h.c12
   have hwl := wire_length n
   have e : Ext s s' := by
-    rw [← hs']
-    constructor <;> simp [withLabels, pushed]
-    · omega
-    · intro i hi; exact writeAt_get_lt _ _ _ _ hi
-    · intro g hg; exact Or.inr (Or.inr hg)
+    have := frame_writeUncompressedName n s
+    rw [writeUncompressedName_eq n s h.cur_av h.av_size, if_pos hfit] at this
+    rw [← hs']; exact this
   have hb : BytesAt s'.octets s.cursor n.wire := by
     rw [hoct]; exact bytesAt_writeAt _ _ _ (by omega)
   have hb' : BytesAt s'.octets s.cursor (n.labels.flatMap WName.encLabel) ∧
